@@ -38,6 +38,12 @@ type Server struct {
 	leasesByCircuitID   map[string]*Lease // hex(CircuitID) -> Lease
 	leasesByCircuitIDMu sync.RWMutex
 
+	// Addresses allocated by a DISCOVER that no REQUEST has turned into a
+	// lease yet: MAC -> time until which the OFFER is held. The cleanup tick
+	// returns the ones the client never came back for.
+	offers   map[string]time.Time
+	offersMu sync.Mutex
+
 	// RADIUS integration (optional)
 	radiusClient *radius.Client
 	policyMgr    *radius.PolicyManager
@@ -187,6 +193,74 @@ func (s *Server) SetCircuitIDCollisionCallback(fn func()) {
 // collisions detected, for computing collision rate (Issue #90).
 func (s *Server) CircuitIDCollisionStats() (insertions, collisions uint64) {
 	return atomic.LoadUint64(&s.circuitIDInsertions), atomic.LoadUint64(&s.circuitIDCollisions)
+}
+
+// noteOffer records that mac was offered an address without holding a lease.
+// The address is held for as long as the lease the OFFER advertises would
+// last: an offer never pins an address longer than a lease would.
+func (s *Server) noteOffer(mac string, hold time.Duration) {
+	if hold <= 0 {
+		hold = time.Minute
+	}
+	s.offersMu.Lock()
+	if s.offers == nil {
+		s.offers = make(map[string]time.Time)
+	}
+	s.offers[mac] = time.Now().Add(hold)
+	s.offersMu.Unlock()
+}
+
+// clearOffer forgets the pending offer of mac (it became a lease, or its
+// allocation is gone)
+func (s *Server) clearOffer(mac string) {
+	s.offersMu.Lock()
+	delete(s.offers, mac)
+	s.offersMu.Unlock()
+}
+
+// releaseOffer returns the address a DISCOVER allocated for mac to its pool,
+// unless mac holds a lease (then the allocation belongs to the lease)
+func (s *Server) releaseOffer(mac net.HardwareAddr) {
+	macStr := mac.String()
+	s.clearOffer(macStr)
+
+	s.leasesMu.RLock()
+	_, leased := s.leases[macStr]
+	s.leasesMu.RUnlock()
+	if leased {
+		return
+	}
+
+	if pool := s.poolMgr.ClassifyClient(mac); pool != nil {
+		if ip := pool.ReleaseClient(mac); ip != nil {
+			s.logger.Debug("Returned unacknowledged offer to the pool",
+				zap.String("mac", macStr),
+				zap.String("ip", ip.String()),
+			)
+		}
+	}
+}
+
+// reclaimStaleOffers returns the offers nobody requested while they were held
+func (s *Server) reclaimStaleOffers() {
+	now := time.Now()
+	var stale []string
+
+	s.offersMu.Lock()
+	for mac, until := range s.offers {
+		if now.After(until) {
+			stale = append(stale, mac)
+		}
+	}
+	s.offersMu.Unlock()
+
+	for _, macStr := range stale {
+		if mac, err := net.ParseMAC(macStr); err == nil {
+			s.releaseOffer(mac)
+		} else {
+			s.clearOffer(macStr)
+		}
+	}
 }
 
 // generateSessionID generates a unique RADIUS session ID
@@ -526,6 +600,8 @@ func (s *Server) handleDiscover(req *dhcpv4.DHCPv4) (*dhcpv4.DHCPv4, error) {
 			if err != nil {
 				return nil, fmt.Errorf("failed to allocate IP: %w", err)
 			}
+			// Held for the client until it REQUESTs it or the offer runs out
+			s.noteOffer(macStr, pool.LeaseTime)
 		} else if pool == nil {
 			// Got IP from Nexus, use default pool for metadata
 			pool = s.poolMgr.ClassifyClient(mac)
@@ -631,6 +707,7 @@ func (s *Server) handleRequest(req *dhcpv4.DHCPv4) (*dhcpv4.DHCPv4, error) {
 				)
 				atomic.AddUint64(&s.radiusAuthFail, 1)
 				atomic.AddUint64(&s.naksTotal, 1)
+				s.releaseOffer(mac)
 				return s.buildNAK(req, "authentication failed")
 			}
 
@@ -641,6 +718,7 @@ func (s *Server) handleRequest(req *dhcpv4.DHCPv4) (*dhcpv4.DHCPv4, error) {
 				)
 				atomic.AddUint64(&s.radiusAuthFail, 1)
 				atomic.AddUint64(&s.naksTotal, 1)
+				s.releaseOffer(mac)
 				return s.buildNAK(req, "access denied")
 			}
 
@@ -752,6 +830,7 @@ func (s *Server) handleRequest(req *dhcpv4.DHCPv4) (*dhcpv4.DHCPv4, error) {
 	s.leasesMu.Lock()
 	s.leases[mac.String()] = lease
 	s.leasesMu.Unlock()
+	s.clearOffer(mac.String())
 
 	// Maintain circuit-ID secondary index for relay-aware lookup
 	if len(lease.CircuitID) > 0 {
@@ -936,6 +1015,11 @@ func (s *Server) handleRelease(req *dhcpv4.DHCPv4) {
 		s.leasesByCircuitIDMu.Unlock()
 	}
 
+	if !exists {
+		// No lease: the client gives up an address it was only offered
+		s.releaseOffer(mac)
+	}
+
 	if exists {
 		// Send RADIUS Accounting-Stop
 		if s.radiusClient != nil && lease.SessionID != "" {
@@ -1087,6 +1171,7 @@ func (s *Server) handleDecline(req *dhcpv4.DHCPv4) {
 	// DECLINE of an address that was offered but not yet acknowledged
 	if pool := s.poolMgr.ClassifyClient(mac); pool != nil && pool.AllocatedTo(mac, declinedIP) {
 		pool.Decline(mac, declinedIP)
+		s.clearOffer(mac.String())
 	}
 }
 
@@ -1293,6 +1378,8 @@ func (s *Server) leaseCleanup(ctx context.Context) {
 
 // cleanupExpiredLeases removes expired leases
 func (s *Server) cleanupExpiredLeases() {
+	s.reclaimStaleOffers()
+
 	now := time.Now()
 	var expired []string
 
